@@ -233,6 +233,27 @@ def _e_biv_from_dict(spec, rs, variant):
     return (lambda params: Bivariate.from_dict(params).to_dict()), (d,), {}, None
 
 
+@entry('biv.generator_scalar', ['nd_f8', 'nd_strided'])
+def _e_biv_generator(spec, rs, variant):
+    m = _fitted_biv(spec, rs)
+    t = vec(rs, 6, variant, 0.05, 0.95)
+    U = vec(rs, 6, variant, 0.05, 0.95)
+    V = vec(rs, 6, variant, 0.05, 0.95)
+
+    def call(tt, uu, vv):
+        return [m.generator(tt), m.partial_derivative_scalar(float(uu[0]), float(vv[0])),
+                m.check_marginal(uu) if hasattr(m, 'check_marginal') else None]
+    return call, (t, U, V), {}, None
+
+
+@entry('select_univariate', ['nd_f8', 'nd_strided', 'series'])
+def _e_select_univariate(spec, rs, variant):
+    from copulas.univariate.selection import select_univariate
+    cands = [zoo.load_class(c) for c in zoo.FAST_UNI]
+    x = vec(rs, 40, variant, 0.5, 6.0)
+    return (lambda X, C: type(select_univariate(X, C)).__name__), (x, cands), {}, None
+
+
 @entry('select_copula', ['nd_c', 'nd_f', 'nd_strided'])
 def _e_select(spec, rs, variant):
     from copulas.bivariate import select_copula
